@@ -36,6 +36,11 @@ fn try_call(world: &mut World, c: Call)
 }
 
 thread_local! { static SH: RefCell<Sh> = RefCell::new(Sh::default()); }
+// Named keys 4, 5, 6 are the *raw* names `SysName::new_raw::<S>(0)` of the function items of the `syscall` keys 0, 1, 2: the
+// same function type under a key of another class. The function item cannot know under which key it was called, so the
+// caller leaves the key here for the body it is about to start.
+thread_local! { static ALIAS: std::cell::Cell<Option<usize>> = std::cell::Cell::new(None); }
+const RAW0: usize = 4;
 fn log(l: String) { SH.with(|s| s.borrow_mut().out.push(l)); }
 
 fn num<T: std::str::FromStr>(t: &str) -> Option<T> { if t.is_empty() || !t.chars().all(|c| c.is_ascii_digit()) { None } else { t.parse().ok() } }
@@ -90,6 +95,7 @@ fn script(k: K, def_key: usize, run: u32) -> (bool, Vec<Op>)
 {
     SH.with(|s| {
         let s = s.borrow();
+        let (k, def_key) = if k == K::N && def_key >= RAW0 { (K::F, def_key - RAW0) } else { (k, def_key) };
         match s.defs.iter().find(|d| d.kind == k && d.key == def_key)
         {
             Some(d) => (d.excl, d.runs.get(run as usize).cloned().unwrap_or_default()),
@@ -133,6 +139,16 @@ fn do_call(world: &mut World, c: Call) -> Option<u32>
             macro_rules! m { ($n:literal) => { if excl { Some(named_syscall(world, c.key as u32, c.input, sys_x::<1, $n>)) } else { Some(named_syscall(world, c.key as u32, c.input, sys_o::<1, $n>)) } }; }
             dispatch4!(c.key, m)
         }
+        K::M if c.key >= RAW0 =>
+        {
+            // a raw name of the `syscall` function item of key `c.key - RAW0`
+            macro_rules! m { ($n:literal) => { if excl { raw_name(&sys_x::<0, $n>) } else { raw_name(&sys_o::<0, $n>) } }; }
+            let name = dispatch4!(c.key - RAW0, m);
+            ALIAS.with(|a| a.set(Some(c.key)));
+            let r = named_syscall_direct::<In<u32>, u32>(world, name, c.input).ok();
+            ALIAS.with(|a| a.set(None));
+            r
+        }
         K::M =>
         {
             // `named_syscall_direct`: by name only (the name `named_syscall` derives for this key's function item)
@@ -149,11 +165,21 @@ fn do_call(world: &mut World, c: Call) -> Option<u32>
 }
 
 fn sys_name<S: 'static>(_: &S, id: u32) -> SysName { SysName::new::<S>(id) }
+fn raw_name<S: 'static>(_: &S) -> SysName { SysName::new_raw::<S>(0) }
 
 /// `register_named_system` with a fresh system of the key's function item.
 fn register_named(world: &mut World, key: usize)
 {
     let excl = script(K::N, key, 0).0;
+    if key >= RAW0
+    {
+        macro_rules! m { ($n:literal) => {
+            if excl { register_named_system(world, raw_name(&sys_x::<0, $n>), sys_x::<0, $n>) }
+            else { register_named_system(world, raw_name(&sys_o::<0, $n>), sys_o::<0, $n>) } }; }
+        dispatch4!(key - RAW0, m);
+        log(format!("sc registered n{}", key));
+        return
+    }
     // both registration entry points, alternating by a running count
     let from = SH.with(|s| { let mut s = s.borrow_mut(); s.nreg += 1; s.nreg % 2 == 0 });
     macro_rules! m { ($n:literal) => {
@@ -173,7 +199,8 @@ fn revoke_named(world: &mut World, key: usize)
 {
     let excl = script(K::N, key, 0).0;
     macro_rules! m { ($n:literal) => { if excl { sys_name(&sys_x::<1, $n>, key as u32) } else { sys_name(&sys_o::<1, $n>, key as u32) } }; }
-    let name = dispatch4!(key, m);
+    macro_rules! r { ($n:literal) => { if excl { raw_name(&sys_x::<0, $n>) } else { raw_name(&sys_o::<0, $n>) } }; }
+    let name = if key >= RAW0 { dispatch4!(key - RAW0, r) } else { dispatch4!(key, m) };
     if let Some(mut r) = world.get_resource_mut::<IdMappedSystems<In<u32>, u32>>() { r.revoke_sysname(name); }
     log(format!("sc revoked n{}", key));
 }
@@ -181,6 +208,7 @@ fn revoke_named(world: &mut World, key: usize)
 /// Body shared by the ordinary systems: `KIND` 0 = syscall, 1 = named, 2 = spawned.
 fn body_ordinary(kind: K, key: usize, def_key: usize, x: u32, local: &mut u32, c: &mut Commands) -> u32
 {
+    let (kind, key, def_key) = match ALIAS.with(|a| a.take()) { Some(k) => (K::N, k, k), None => (kind, key, def_key) };
     let run = *local;
     log(format!("sc enter {}{} r{} x{}", kname(kind), key, run, x));
     let (_, ops) = script(kind, def_key, run);
@@ -209,6 +237,7 @@ fn despawn_spawned(world: &mut World, id: usize)
 
 fn body_exclusive(kind: K, key: usize, def_key: usize, x: u32, local: &mut u32, world: &mut World) -> u32
 {
+    let (kind, key, def_key) = match ALIAS.with(|a| a.take()) { Some(k) => (K::N, k, k), None => (kind, key, def_key) };
     let run = *local;
     log(format!("sc enter {}{} r{} x{}", kname(kind), key, run, x));
     let (_, ops) = script(kind, def_key, run);
@@ -257,6 +286,7 @@ pub fn run(path: &str, text: &str)
     println!("scenario {path}");
     let Some((defs, tops)) = parse(text) else { println!("parse-error"); return };
     SH.with(|s| *s.borrow_mut() = Sh{ defs, ..Default::default() });
+    ALIAS.with(|a| a.set(None));
     let result = std::panic::catch_unwind(std::panic::AssertUnwindSafe(|| {
         let mut world = World::new();
         for (t, op) in tops.iter().enumerate()
